@@ -202,6 +202,13 @@ def build(ck, sr, cfgs, seeds):
                 i = len(scripts)
                 scripts.append(full + " ; closure %s ; step %s ; app %s 66 ; app %s 67 ; step %s ; st" % (other, din, side, other, din))
                 meta.append((name, n, side, "est:close_notify"))
+                # the killing record arrives while the application still has unsent data queued in the out buffer: the fatal alert is
+                # appended behind it, and flushing must still end in a close request
+                for kn in ("garbage_sealed", "bad_type", "plain_app", "bad_len_big"):
+                    an, raw, d = atk[kn]
+                    i = len(scripts)
+                    scripts.append(full + " ; appq %s 717565756564 ; inj %s %s ; app %s 6869 ; st" % (side, side, raw.hex(), side))
+                    inj_desc[i] = [d]; meta.append((name, n, side, "queued-output:" + kn))
     return scripts, inj_desc, meta
 
 
@@ -342,6 +349,12 @@ def run(ck):
                 fatal_out = ob.startswith("AlertOut")
                 fatal_in = any((st.pre["v"] == 1 and d != 0) or l == 2 for l, d in st.alerts_in)
                 close_in = any(d == 0 for l, d in st.alerts_in)
+                if fatal_out and not st.pre["dt"] and "out=[" in st.body and "[sent:CLOSE]" not in st.body and not st.errs:
+                    ck.spec_violation("no-close-request-after-fatal-alert:v%d:%s" % (st.pre["v"], meta[si][3].split(":")[0]),
+                                      "a fatal alert was sent (%s) but flushing the output did not end in MATRIXSSL_REQUEST_CLOSE: %s" % (ob, st.body[:160]),
+                                      {"harness": "h_sess", "script": scripts[si], "observed": out[-800:], "scenario": meta[si]})
+                elif fatal_out and "[sent:CLOSE]" in st.body:
+                    ck.count("close_requested_after_fatal_alert")
                 if (fatal_out or fatal_in or (st.errs and not st.appdata)) and not dead[x]:
                     dead[x] = "sent a fatal alert" if fatal_out else ("received a fatal alert" if fatal_in else "hit an error")
                     if not (st.post["E"] or st.post["C"]):
